@@ -203,6 +203,21 @@ func init() {
 					}
 				}
 			}
+			// one value listed twice in different representations, FOLLOWED by other values: every listed value counts,
+			// as include and as exclude, typed and untyped lists
+			for _, kind := range []string{"kgroups", "compact"} {
+				c := eCase{Kind: kind, Policy: "error", Docs: []eDoc{
+					{ID: 1, Cons: []eConj{{{F: 0, Inc: true, V: tvList(tvInt("int", 7), tvStr("7"), tvInt("int", 8))}}}},
+					{ID: 2, Cons: []eConj{{{F: 0, Inc: true, V: tvSlice("[]int", tvInt("int", 7), tvInt("int", 8), tvInt("int", 9))}}}},
+					{ID: 3, Cons: []eConj{{{F: 0, Inc: false, V: tvList(tvFloat("float64", 7), tvJSON("7"), tvInt("int8", 9), tvStr("10"))}, {F: 1, Inc: true, V: tvStr("x")}}}},
+					{ID: 4, Cons: []eConj{{{F: 0, Inc: true, V: tvSlice("[]int64", tvInt("int64", 5), tvInt("int64", 5), tvInt("int64", 6), tvInt("int64", 5), tvInt("int64", 11))}}}},
+					{ID: 5, Cons: []eConj{{{F: 0, Inc: true, V: tvSlice("[]string", tvStr("a"), tvStr("a"), tvStr("b"))}}}},
+				}}
+				for _, v := range []TV{tvInt("int", 7), tvStr("8"), tvFloat("float64", 8), tvInt("int", 9), tvJSON("10"), tvInt("int", 6), tvUint("uint8", 11), tvStr("b"), tvInt("int", 5), tvStr("a")} {
+					c.Queries = append(c.Queries, eQuery{A: []eAssign{{F: 0, V: v}}}, eQuery{A: []eAssign{{F: 0, V: v}, {F: 1, V: tvStr("x")}}})
+				}
+				add(c)
+			}
 			// JSON ingest
 			nj := 60
 			if tier == "thorough" {
